@@ -373,6 +373,18 @@ class Driver:
         from contextlib import suppress
         from uuid import uuid4
         from cylc.flow import commands
+        if kw.get("tasks") == ["@queued"]:
+            # one task that sits in a queue right now
+            ids = sorted(it.identity for it in self.schd.pool.get_tasks() if it.state.is_queued and it.state("waiting"))
+            if not ids:
+                self.last_ids = None
+                return None
+            self.last_ids = [self.rng.choice(ids)]
+            kw = dict(kw, tasks=list(self.last_ids))
+        elif kw.get("tasks") == ["@same"]:
+            if not getattr(self, "last_ids", None):
+                return None
+            kw = dict(kw, tasks=list(self.last_ids))
         args = {k: (v if isinstance(v, (int, str, bool, type(None))) else list(v)) for k, v in kw.items()}
         if TR.point_index is not None and args.get("tasks"):
             # datetime cycling: ids are logged with the integer index of their cycle point
